@@ -57,6 +57,47 @@ func hop(x []byte, drw *dialect.ReadWriter) (accepted bool, out B, panicked bool
 	return true, B(append([]byte{}, sink.buf.Bytes()...)), false
 }
 
+// hopBatch: store and forward. One reader reads ALL the frames of the stream x1 x2 .. xk (delivered in small pieces),
+// the application keeps them, and only then one writer writes them all. outs[i] is what was written for frame i
+// (nil: not read as a frame / not written).
+func hopBatch(xs [][]byte, drw *dialect.ReadWriter, piece int) (outs []B, panicked bool) {
+	outs = make([]B, len(xs))
+	defer func() {
+		if r := recover(); r != nil {
+			panicked = true
+		}
+	}()
+	var all []byte
+	for _, x := range xs {
+		all = append(all, x...)
+	}
+	rd := &frame.Reader{ByteReader: &chunkReader{data: all, limit: len(all), sched: []int{piece}, err: io.EOF}, DialectRW: drw}
+	if err := rd.Initialize(); err != nil {
+		fatal("%v", err)
+	}
+	var kept []frame.Frame
+	for range xs {
+		fr, err := rd.Read()
+		if err != nil {
+			return outs, false // the single-frame chains judge refusals; a batch is only judged when every frame was read
+		}
+		kept = append(kept, fr)
+	}
+	sink := &recWriter{}
+	w := &frame.Writer{ByteWriter: sink, DialectRW: drw}
+	if err := w.Initialize(); err != nil {
+		fatal("%v", err)
+	}
+	for i, fr := range kept {
+		before := sink.buf.Len()
+		if err := w.Write(fr); err != nil {
+			continue
+		}
+		outs[i] = B(append([]byte{}, sink.buf.Bytes()[before:]...))
+	}
+	return outs, false
+}
+
 func cmdRoute(o opts) {
 	rec := newRec(o.out)
 	r := rand.New(rand.NewSource(o.seed))
@@ -68,6 +109,37 @@ func cmdRoute(o opts) {
 
 	var vecs []routeVec
 	readVectors(o.vectors, &vecs)
+	// store and forward: groups of up to 6 vectors read by one reader, kept, then written by one writer
+	for g0 := 0; g0 < len(vecs); g0 += 6 {
+		grp := vecs[g0:min2(g0+6, len(vecs))]
+		for _, withDl := range []bool{false, true} {
+			var d *dialect.ReadWriter
+			dlj := []int{}
+			if withDl {
+				d, dlj = drw, dl
+			}
+			var xs [][]byte
+			for _, v := range grp {
+				xs = append(xs, v.Bytes)
+			}
+			outs, pan := hopBatch(xs, d, []int{64, 1, 300, 17}[(g0/6)%4])
+			complete := true
+			for _, o := range outs {
+				complete = complete && o != nil
+			}
+			if !complete && !pan {
+				continue
+			}
+			for i, v := range grp {
+				out := outs[i]
+				if out == nil {
+					out = B{}
+				}
+				rec.Put(M{"e": "ROUTE", "dl": dlj, "x0": v.Bytes, "chain": []M{{"accepted": true, "out": out, "panic": pan}},
+					"var": "batch_" + v.Var, "d": v.D})
+			}
+		}
+	}
 	for _, v := range vecs {
 		for _, withDl := range []bool{false, true} {
 			var d *dialect.ReadWriter
@@ -207,4 +279,11 @@ func fixOne(rec *Rec, r *rand.Rand, v routeVec, drw *dialect.ReadWriter, dl []in
 		}
 	}
 	rec.Put(rcd)
+}
+
+func min2(a, b int) int {
+	if a < b {
+		return a
+	}
+	return b
 }
